@@ -1,7 +1,11 @@
 /-
   Helper lemmas for C11.  The primed statements are re-exported by OrbProofs/C11.lean.
+  The spec-side vocabulary (inCell, Inv, QInv, SqrtUp, inBox, within, Op, Out, step, Spec, Trace) lives in
+  C11Tree.lean; C11Visit.lean has the generic pruned-traversal theorem and the find / in-bound visitors,
+  C11Heap.lean the array max-heap, C11Near.lean the k-nearest visitor and the drain loop.
 -/
-import OrbProofs.C11Tree
+import OrbProofs.C11Visit
+import OrbProofs.C11Near
 
 namespace Orb.Quadtree
 open Orb Orb.Core
@@ -33,27 +37,114 @@ theorem add_spec' (q : QT α) (p : Ptr α) (h : QInv q) :
 theorem remove_spec' (sqrt : α → α) (hs : SqrtUp sqrt) (q : QT α) (pt : Pt α) (eq : Ptr α → Bool) (h : QInv q) :
     Spec q.bound (contents q.root) (.remove pt eq) (.flag (remove sqrt q pt eq).2) (contents (remove sqrt q pt eq).1.root) ∧
     QInv (remove sqrt q pt eq).1 ∧ (remove sqrt q pt eq).1.bound = q.bound := by
-  sorry
+  have hr : remove sqrt q pt eq =
+      match (findRaw sqrt q pt eq).closest with
+      | none => (q, false)
+      | some (_, path) => ({ q with root := modifyAt clearNode path q.root }, true) := by
+    unfold remove
+    cases hr : q.root with
+    | nil => simp [findRaw, hr, visit]
+    | node v c0 c1 c2 c3 => rfl
+  rw [hr]
+  rcases findRaw_spec hs q pt eq h with ⟨h1, -, -, h4⟩ | ⟨x, path, h1, h2, -, -, h5, h6, h7⟩
+  · rw [h1]
+    exact ⟨⟨h4, List.Perm.refl _⟩, h, rfl⟩
+  · rw [h1]
+    refine ⟨?_, Inv_modifyAt clearNode Inv_clearNode path _ _ h, rfl⟩
+    exact ⟨x, h5, h6, h7, contents_modifyAt_clear path q.root x h2⟩
 
 theorem matching_spec' (sqrt : α → α) (hs : SqrtUp sqrt) (q : QT α) (pt : Pt α) (f : Ptr α → Bool) (h : QInv q) :
     Spec q.bound (contents q.root) (.matching pt f) (.ptr (matching sqrt q pt f)) (contents q.root) := by
-  sorry
+  refine ⟨List.Perm.refl _, ?_⟩
+  have hm : matching sqrt q pt f = (findRaw sqrt q pt f).closest.map (·.1) := by
+    unfold matching
+    cases hr : q.root with
+    | nil => simp [findRaw, hr, visit]
+    | node v c0 c1 c2 c3 => rfl
+  rw [hm]
+  rcases findRaw_spec hs q pt f h with ⟨h1, -, -, h4⟩ | ⟨x, path, h1, -, -, -, h5, h6, h7⟩
+  · rw [h1]; exact h4
+  · rw [h1]; exact ⟨h5, h6, h7⟩
 
 theorem kNearest_spec' (sqrt : α → α) (hs : SqrtUp sqrt) (q : QT α) (pt : Pt α) (k : Nat) (f : Ptr α → Bool)
     (md : Option α) (h : QInv q) :
     Spec q.bound (contents q.root) (.kNearest pt k f md) (.ptrs (kNearest sqrt q pt k f md)) (contents q.root) := by
-  sorry
+  refine ⟨List.Perm.refl _, ?_⟩
+  by_cases hk : k = 0
+  · have e : kNearest sqrt q pt k f md = [] := by
+      unfold kNearest; cases q.root <;> simp [hk]
+    rw [e, hk]
+    exact ⟨_, List.Perm.refl _, by simp, List.Pairwise.nil, by simp⟩
+  have hk' : 0 < k := Nat.pos_of_ne_zero hk
+  have hP := kNearest_visit hs q pt k hk' f md h
+  cases hr : q.root with
+  | nil =>
+    have e : kNearest sqrt q pt k f md = [] := by
+      unfold kNearest; simp [hr]
+    rw [e]
+    exact ⟨[], by simp [contents], by simp [contents], List.Pairwise.nil, by simp⟩
+  | node v c0 c1 c2 c3 =>
+    unfold kNearest
+    rw [hr] at hP ⊢
+    simp only [hk, if_false]
+    generalize visit (nearestVisitor sqrt pt f k) (Tree.node v c0 c1 c2 c3) (rootCell q.bound) []
+      ⟨#[], q.bound, md.map fun m => m * m⟩ = st at hP ⊢
+    obtain ⟨D, hc, hph⟩ := hP
+    obtain ⟨hdp, hds⟩ := drain_spec pt st.heap.size st.heap [] hc.ord rfl hc.ent List.Pairwise.nil (by simp)
+    simp only [List.append_nil] at hdp
+    refine ⟨D, (hdp.append_right D).trans hc.perm, ?_, hds, ?_⟩
+    · have hlen : (List.filter (fun x => f x && within pt md x) (contents (Tree.node v c0 c1 c2 c3))).length
+          = st.heap.size + D.length := by
+        rw [← hc.perm.length_eq]; simp
+      rw [hdp.length_eq, hlen]
+      simp only [List.length_map, Array.length_toList]
+      rcases hph with ⟨-, -, hD⟩ | ⟨hsz, -⟩
+      · have := hc.size_le; subst hD; simp; omega
+      · omega
+    · intro x hx y hy
+      obtain ⟨e, he, rfl⟩ := List.mem_map.mp (hdp.mem_iff.mp hx)
+      rw [← hc.ent e he]
+      exact hc.le e he y hy
 
 theorem inBound_spec' (q : QT α) (b : Bound α) (f : Ptr α → Bool) (h : QInv q) :
     Spec q.bound (contents q.root) (.inBound b f) (.ptrs (inBound q b f)) (contents q.root) := by
-  sorry
+  refine ⟨List.Perm.refl _, ?_⟩
+  unfold inBound
+  cases hr : q.root with
+  | nil => simp [contents]
+  | node v c0 c1 c2 c3 =>
+    have := inBound_visit b f q.root (rootCell q.bound) h
+    rw [hr] at this
+    exact this
 
 theorem remove_nodes_le' (sqrt : α → α) (q : QT α) (pt : Pt α) (eq : Ptr α → Bool) :
     nodes (remove sqrt q pt eq).1.root ≤ nodes q.root := by
-  sorry
+  unfold remove
+  split
+  · exact le_refl _
+  · split
+    · exact le_refl _
+    · exact nodes_modifyAt clearNode nodes_clearNode _ _
+
+theorem trace_of_inv (sqrt : α → α) (hs : SqrtUp sqrt) (ops : List (Op α)) :
+    ∀ q : QT α, QInv q → Trace sqrt q ops := by
+  induction ops with
+  | nil => intro q _; trivial
+  | cons op rest ih =>
+    intro q h
+    cases op with
+    | add p =>
+      obtain ⟨h1, h2, -, -⟩ := add_spec' q p h
+      exact ⟨h1, ih _ h2⟩
+    | remove pt eq =>
+      obtain ⟨h1, h2, -⟩ := remove_spec' sqrt hs q pt eq h
+      exact ⟨h1, ih _ h2⟩
+    | matching pt f => exact ⟨matching_spec' sqrt hs q pt f h, ih _ h⟩
+    | kNearest pt k f md => exact ⟨kNearest_spec' sqrt hs q pt k f md h, ih _ h⟩
+    | inBound b f => exact ⟨inBound_spec' q b f h, ih _ h⟩
 
 theorem history_refines' (sqrt : α → α) (hs : SqrtUp sqrt) (b : Bound α) (ops : List (Op α)) :
-    Trace sqrt ⟨b, .nil⟩ ops := by
-  sorry
+    Trace sqrt ⟨b, .nil⟩ ops :=
+  trace_of_inv sqrt hs ops _ (inv_empty' b)
 
 end Orb.Quadtree
